@@ -51,6 +51,13 @@ LawConserved ==
 LawSplitEven ==
   (c.kind = "scalar" /\ c.d = "split") =>
      \A p \in Outs(c.d, c.v) : p[1] - p[2] \in {-1, 0, 1}
+\* split commutes with even shifts of the mother's value: large counts divide
+\* like small ones (the harness instantiates m with 2^59 on the implementation,
+\* where TLC's 32-bit integers cannot go)
+LawSplitShift ==
+  (c.kind = "scalar" /\ c.d = "split") =>
+     \A m \in 0..MaxV :
+        Outs("split", c.v + 2 * m) = {<<p[1] + m, p[2] + m>> : p \in Outs("split", c.v)}
 LawCopies ==
   (c.kind = "scalar" /\ c.d = "set") => Outs(c.d, c.v) = {<<c.v, c.v>>}
 LawZero ==
